@@ -7,11 +7,9 @@ LS_BIN = os.path.join(VERIF, 'target', 'ls', 'debug', 'parol-ls')
 
 def build_ls():
     """(Re)build parol-ls from /repo's working tree into /verif/target/ls (nothing is written under /repo)."""
-    env = dict(os.environ, CARGO_NET_OFFLINE='true', CARGO_TARGET_DIR=os.path.join(VERIF, 'target', 'ls'),
-               RUSTFLAGS='--cfg parol_verif')
-    p = subprocess.run('cargo build -p parol-ls --offline', shell=True, cwd='/repo', env=env,
-                       stdout=subprocess.PIPE, stderr=subprocess.STDOUT, text=True, timeout=3000)
-    return p.returncode == 0, p.stdout[-4000:]
+    import checklib
+    ok, out = checklib.build_repo_bin(['parol-ls'], 'ls')
+    return ok, out[-4000:]
 
 
 class Server:
